@@ -126,15 +126,13 @@ def maxOf : IntArg → Int
 
 /-! ### the server side of Open and of the traditional operation -/
 
-def CIM_ERR_INVALID_PARAMETER : Nat := 4
-def CIM_ERR_QUERY_LANGUAGE_NOT_SUPPORTED : Nat := 14
 
 /-- mirrors _validate_open_params (empty strings not modelled) -/
 def openParamErr (a : Args) : Option Nat :=
   if a.lang = .none ∧ a.query = true then some CIM_ERR_INVALID_PARAMETER
   else if a.lang = .other then some CIM_ERR_QUERY_LANGUAGE_NOT_SUPPORTED
   else match a.timeout with
-    | .int k => if k > (openMaxTimeout : Int) then some CIM_ERR_INVALID_PARAMETER else none
+    | .int k => if k > (Pywbem.Generated.openMaxTimeout : Int) then some CIM_ERR_INVALID_PARAMETER else none
     | _ => none
 
 /-- status of the traditional operation (None = it succeeds with `tradObjs`).  The harness observes it on the
@@ -143,7 +141,8 @@ def openParamErr (a : Args) : Option Nat :=
 def tradErrOf (_s : Pull.State) (a : Args) : Option Nat := a.tradErr
 
 /-- mirrors MainProvider.Open…(): pull enabled?, namespace, open params, the traditional
-    provider method, `_open_response` (= C14 `stepOpen`) -/
+    provider method, `_open_response` (= C14 `stepOpen`, called with default session parameters: the parameter
+    checks have been made above, in front of the traditional provider method as in the code) -/
 def srvOpen (s : Pull.State) (a : Args) : Pull.State × Out :=
   if s.disabled then (s, .err (.cimError CIM_ERR_NOT_SUPPORTED))
   else if !(s.nss.contains a.ns) then (s, .err (.cimError CIM_ERR_INVALID_NAMESPACE))
@@ -151,7 +150,7 @@ def srvOpen (s : Pull.State) (a : Args) : Pull.State × Out :=
     | some e => (s, .err (.cimError e))
     | none => match a.tradErr with
       | some e => (s, .err (.cimError e))
-      | none => stepOpen s (openKind a.fam) a.ns a.tradObjs (some (maxOf a.max))
+      | none => stepOpen s {} (openKind a.fam) a.ns a.tradObjs (some (maxOf a.max))
 
 /-! ### the connection -/
 
